@@ -1,7 +1,8 @@
 (* C12 - Each pipeline transformation equals its documented source-level rewrite.
    Only statements, each closed by `exact`, with Print Assumptions. *)
 From Coq Require Import NArith List Bool.
-From PS Require Import Base.Chars Model.SString Model.Transform Spec.Rewrite Proofs.TransformP.
+From PS Require Import Base.Chars Model.SString Spec.Items Model.Transform Spec.Rewrite Proofs.SStringP Proofs.TransformP
+  Proofs.ReplaceP Proofs.AddCondP.
 Import ListNotations.
 
 (* The detection walk commutes with the entry-wise rewrite of the document: if every detection item the
@@ -90,6 +91,36 @@ Theorem C12_identity_replace_string_number_refuted :
   exists asg c r, meanings asg (apply_tspec c (TReplace []) r) <> meanings asg r.
 Proof. exact replace_number_refuted. Qed.
 Print Assumptions C12_identity_replace_string_number_refuted.
+
+(* the syntactic domain of the no-op instance: a value without placeholders in which no literal backslash
+   stands directly before a wildcard comes back unchanged from a substitution that leaves its plain form alone *)
+Theorem C12_replace_noop_roundtrip : forall sub l,
+  rs_dom l = true -> contains_placeholder (canon l) = false ->
+  sub (plain_items l) = plain_items l -> replace_sstring sub (canon l) = canon l.
+Proof. exact replace_noop_roundtrip. Qed.
+Print Assumptions C12_replace_noop_roundtrip.
+
+(* ---------- add_condition ---------- *)
+(* FULL STATEMENT: for every name. Proved for a fresh name (not defined in the rule, not referenced by the
+   condition, matched by none of its selectors - which the drawn default name "_cond_..." is unless a
+   selector pattern starts with "_"): the new condition `[not] name and (cond)` means the (negated) added
+   detection AND the original condition evaluated in the original rule; m = meaning of the added
+   detection, env = meanings of the rule's detections, selm = selector pattern matching. *)
+Theorem C12_add_condition : forall selm (name : str) (m : option bool) (neg : bool) env c,
+  fresh_env name env = true -> fresh_in selm name c = true ->
+  ceval selm (dict_set name m env) (CAndE [(if neg then CNotE (CId name) else CId name); c])
+  = comb true (opt_list (option_map (xorb neg) m) ++ opt_list (ceval selm env c)).
+Proof. exact add_condition_sem. Qed.
+Print Assumptions C12_add_condition.
+
+(* an explicit name that a selector of the condition matches (`1 of them`) is captured; the hand-rewritten
+   document has the same reading, so this is the boundary of the theorem, not a defect *)
+Theorem C12_add_condition_captured_refuted :
+  exists name m env c, fresh_env name env = true /\
+    ceval (fun _ _ => true) (dict_set name m env) (CAndE [CId name; c])
+    <> comb true (opt_list m ++ opt_list (ceval (fun _ _ => true) env c)).
+Proof. exact add_condition_captured_refuted. Qed.
+Print Assumptions C12_add_condition_captured_refuted.
 
 (* non-vacuity: the premises are met by a rule with a keyword list, a negated item and nested lists *)
 Example C12_premises_inhabited :
